@@ -298,7 +298,7 @@ func config(i int) printer.Config {
 	}
 	if bit(1) {
 		// bits 8 and up select another width
-		c.Width = []int{2, 1, 4, 8, 16, 33}[(i>>8)%6]
+		c.Width = []int{2, 1, 4, 8, 16, 33, -1}[(i>>8)%7]
 	}
 	c.Redir = printer.After
 	if bit(2) {
